@@ -34,9 +34,10 @@ Record browser := mkBrowser {
 
 Record world := mkWorld { w_caches : list cache; w_browsers : list browser; w_jitter : Z }.
 
-Definition T_CACHE_OF (i : nat) : N := (100 + N.of_nat i)%N.
-Definition T_QUERY_OF (j : nat) : N := (200 + N.of_nat j)%N.
-Definition T_SERVICE_OF (j : nat) : N := (300 + N.of_nat j)%N.
+(* timer ids, collision-free for any number of caches and browsers: residue 0 = cache i, 1 = browse question of j, 2 = batch of j *)
+Definition T_CACHE_OF (i : nat) : N := (3 * N.of_nat i)%N.
+Definition T_QUERY_OF (j : nat) : N := (3 * N.of_nat j + 1)%N.
+Definition T_SERVICE_OF (j : nat) : N := (3 * N.of_nat j + 2)%N.
 
 Definition view := list record.      (* what lookups see: the records held by the cache at that moment *)
 Definition lookup_view (name : bstr) (type : N) (v : view) : list record := filter (cache_lookup_match name type) v.
@@ -265,9 +266,9 @@ Definition world_handle (now : Z) (w : world) (ev : event bapi) : world * list e
   match ev with
   | EvMsg m => all_browsers_on_message now O (length (w_browsers w)) m w
   | EvTimer tid =>
-      if (tid <? 200)%N then world_cache_timeout now (N.to_nat (tid - 100)) w
-      else if (tid <? 300)%N then (w, browser_query_timeout (N.to_nat (tid - 200)) w)
-      else browser_service_timeout (N.to_nat (tid - 300)) w
+      if (tid mod 3 =? 0)%N then world_cache_timeout now (N.to_nat (tid / 3)) w
+      else if (tid mod 3 =? 1)%N then (w, browser_query_timeout (N.to_nat (tid / 3)) w)
+      else browser_service_timeout (N.to_nat (tid / 3)) w
   | EvApi BNewCache => (mkWorld (w_caches w ++ [empty_cache]) (w_browsers w) (w_jitter w), [])
   | EvApi (BNewBrowser ty co) =>
       let '(caches, ci) := match co with
